@@ -19,10 +19,8 @@ ASSUMPTIONS = [
     "algorithm uses is confirmed by the Gallina checkers denotes_int / denotes_date / denotes_datetime / denotes_net / float_denotes_int); "
     "the share of unconfirmed and accepted-liberal cases is reported under distribution (tag:ann-unconfirmed, tag:conv-liberal)",
     "IPv6 annotations are confirmed only shallowly (character set and prefix length), IPv4 fully (prefix, netmask and hostmask forms)",
-    "no network wider than 256 addresses is generated (separate known defect 11/12: pycfmodel iterates typed networks inside generic lists); "
-    "inputs containing one are declined (EUndefined) so that the shrinker cannot produce one either",
-    "lists that mix date-only / midnight text with other timestamps are not generated: pycfmodel re-casts typed list members and pydantic then "
-    "turns a midnight datetime into a date (artefact of defect 11/12, outside this property)",
+    "networks of any width (/0, /7, /8, /10, /12, /32 ...) and lists mixing date-only / midnight text with other timestamps are part of the "
+    "domain since defects F11/F12 were repaired (the former guards are kept behind VERIF_NARROW_ONLY for bisecting)",
     "objects recognised by the Properties union (Tag, Statement, ...) are compared by class and canonical dump with the recogniser oracle; "
     "what pydantic does INSIDE a recognised property model is stage 2 (schema interpreter)",
     "property names are ASCII identifiers that do not collide with pydantic BaseModel attributes",
@@ -67,7 +65,8 @@ EPOCH = [0, 1, 86400, 1577836800, 1577836800.0, 1577836800.5, 1.5, -1.5, 0.5, 15
          "1577836800", "86400", "1577836800.0", "-1"]
 ADDR_OK = ["10.0.0.1", "10.0.0.1/32", "10.0.0.0/24", "10.0.0.7/24", "192.168.1.0/255.255.255.0", "1.2.3.4/0.0.0.255", "0.0.0.0",
            "255.255.255.255", "1.2.3.4/032", "116.202.65.160/32", "10.1.2.128/25", "::1", "::1/128", "fe80::1/128", "2001:db8::/120",
-           "2001:DB8::1", "0:0:0:0:0:0:0:1", "::ffff:1.2.3.4", "::", "2001:db00::0/120", "fe80::1%eth0", "::1/120"]
+           "2001:DB8::1", "0:0:0:0:0:0:0:1", "::ffff:1.2.3.4", "::", "2001:db00::0/120", "fe80::1%eth0", "::1/120",
+           "10.0.0.0/8", "0.0.0.0/0", "172.16.0.0/12", "10.1.0.0/255.255.0.0", "::/0", "2001:db8::/32", "fc00::/7", "100.64.0.0/10"]
 ADDR_BAD = ["256.0.0.1", "01.2.3.4", "1.2.3", "1.2.3.4.5", "1.2.3.4/33", "1.2.3.4/", " 1.2.3.4", "1.2.3.4 ", "1.2.3.4/+8", "1::2::3", ":::",
             "12345::", "::1/129", "1.2.3.4/255.0.255.0", "10.0.0.0//24", "a.b.c.d", "::g"]
 JSON_TEXT = ['"x"', '"true"', '"2020-01-01"', "[1,2]", '["a","b"]', '["a",1]', "[]", "{}", '{"a":1}', '[{"a":1}]', "null", " null ", "[null]",
@@ -167,6 +166,9 @@ def _is(name, x):
 
 def fix_list(l):
     """keep out lists in which pycfmodel's re-cast turns a midnight datetime into a date (see ASSUMPTIONS)"""
+    import os
+    if not os.environ.get("VERIF_NARROW_ONLY"):
+        return l
     strs = [x for x in l if isinstance(x, str)]
     if strs and all(isinstance(x, str) or go_fn(x) for x in l):
         dts = [x for x in strs if _is("datetime", x)]
@@ -181,7 +183,11 @@ def go_fn(x):
 
 
 def wide(x, depth=0):
-    """does the input hold (possibly inside JSON text) an address range wider than 256 addresses?"""
+    """does the input hold (possibly inside JSON text) an address range wider than 256 addresses?  (A guard from the time before
+    defects F11/F12 were repaired; since then wide ranges are part of the domain and this answers False unless VERIF_NARROW_ONLY is set.)"""
+    import os
+    if not os.environ.get("VERIF_NARROW_ONLY"):
+        return False
     if isinstance(x, str):
         for cls in (IPv4Network, IPv6Network):
             try:
